@@ -1,6 +1,7 @@
 import MgpuModel.Util
 import MgpuModel.C06_Lanes
 import MgpuModel.Gen.VectorHandlers
+import MgpuModel.Gen.LaneBodies
 /-! # C06 — what a vector handler's fact record must satisfy, and the line-protocol driver
 
 `FitsSkeleton` is evaluated (by `decide`) on the records regenerated from the Go source on every run
@@ -191,6 +192,44 @@ def runCase (name : String) (exec vcc off : Nat) (a b : List Nat) : String :=
   | "flatload" => go hFlatLoad () 2
   | _ => "bad-handler"
 
+/-! ## `c06 body`: one iteration of a translated lane body against the real ALU (one active lane) -/
+
+/-- the handler a dispatch name stands for: itself, or what a wrapper selects for these instruction fields -/
+def resolveLane (arch name : String) (u : Uni) : Option LaneHandler :=
+  let nm := match Gen.Lane.wrappers.find? (fun w => w.1 == arch && w.2.1 == name) with
+    | some w => w.2.2 u
+    | none => name
+  Gen.Lane.laneHandlers.find? (fun h => h.arch == arch && h.name == nm)
+
+def keepW (w : Nat) (v : BitVec 64) : BitVec 64 := if w == 32 then (v.setWidth 32).setWidth 64 else v
+
+def bodyCase (arch name : String) (kv : List String) : String :=
+  let hx := fun k => (Util.kvHex? kv k).getD 0
+  let bv := fun (w : Nat) k => BitVec.ofNat w (hx k)
+  let u : Uni :=
+    { isSdwa := hx "sdwa" != 0, clamp := hx "clamp" != 0, abs := bv 64 "abs", neg := bv 64 "neg", omod := bv 64 "omod"
+      src0Sel := bv 32 "s0sel", src1Sel := bv 32 "s1sel", dstSel := bv 32 "dsel", dstUnused := bv 8 "dun" }
+  match resolveLane arch name u with
+  | none => "untranslated"
+  | some h =>
+    if !h.ok u then "fault" else
+    let vcc := bv 64 "vcc"
+    let r : RawIn :=
+      { i := (Util.kvNat? kv "i").getD 0, src0 := bv 64 "s0", src1 := bv 64 "s1", src2 := bv 64 "s2", dstOld := bv 64 "d", vcc := vcc
+        acc := (match h.accInit with | .vcc => vcc | _ => 0#64) }
+    let o := h.raw u r
+    let dw := hx "dw"
+    let d := if dw == 0 then "-" else Util.toHex (keepW dw (o.dst.getD r.dstOld)).toNat
+    -- where the accumulator goes: VCC, or the SGPR pair named by inst.SDst / inst.Dst (`vcc` / `sd` / `none`)
+    let target := match h.sink with
+      | .none => "none"
+      | .vcc => "vcc"
+      | .sdst => (Util.kv? kv "mos").getD "none"
+      | .dst => (Util.kv? kv "mod").getD "none"
+    let vcc' := if target == "vcc" then o.acc else vcc
+    let sd' := if target == "sd" then o.acc else bv 64 "sd"
+    s!"d={d} vcc={Util.toHex vcc'.toNat} sd={Util.toHex sd'.toNat}"
+
 def sortStrings (l : List String) : List String := (l.toArray.qsort (· < ·)).toList
 
 def handle (line : String) : String :=
@@ -221,6 +260,7 @@ def handle (line : String) : String :=
               let full := if arch == "gcn3" then (if f == "flat" then "alu_flat.go" else "alu" ++ fl) else "cdna3/" ++ fl
               if full == file then some nm else none))
     s!"n={names.length} {",".intercalate names}"
+  | _ :: "body" :: arch :: name :: rest => bodyCase arch name rest
   | _ :: "misfits" :: _ => s!"{misfits}"
   | _ => "bad-op"
 
